@@ -1004,6 +1004,9 @@ caption_command(vbi_decoder *vbi, struct caption *cc,
 	switch (c1) {
 	case 0:		/* Backgr. Attr. Codes -- 001 c000  010 xxxt */
 		/* EIA 608-B Section 6.2. */
+		if (!ch->mode)
+			return;
+
 		ch->attr.opacity = (c2 & 1) ? VBI_SEMI_TRANSPARENT : VBI_OPAQUE;
 		ch->attr.background = palette_mapping[(c2 >> 1) & 7];
 
@@ -1013,6 +1016,9 @@ caption_command(vbi_decoder *vbi, struct caption *cc,
 		return;
 
 	case 1:
+		if (!ch->mode)
+			return;
+
 		if (c2 & 0x10) {	/* Special Characters	001 c001  011 xxxx */
 // not verified
 			c2 &= 15;
